@@ -11,7 +11,7 @@ class _RL(dict):
 UNIT_RLIMIT = _RL({"div_small": 80, "mul_redc": 80})      # unit -> --rlimit (Verus default is 10; 5x head-room over the measured maximum)
 UNIT_TIMEOUT = {"knuth": 1500, "addmul": 900}     # unit -> seconds
 UNIT_EXPECT = {       # unit -> minimum number of verified functions on the unchanged tree (vacuity guard)
-    "core": 31, "add": 29, "kernels": 79, "addmul": 71, "addmul_n": 73, "mul": 51, "div_small": 183, "knuth": 145, "mul_redc": 69, "basics": 22, "pow": 38, "divw": 54, "modular": 51, "spigot": 44, "gcd": 21,
+    "core": 31, "add": 29, "kernels": 79, "addmul": 71, "addmul_n": 73, "mul": 51, "divd": 45, "div_small": 235, "knuth": 145, "mul_redc": 69, "basics": 22, "pow": 38, "divw": 54, "modular": 51, "spigot": 44, "gcd": 21,
 }
 
 COMMON_TRUST = [
@@ -168,22 +168,23 @@ PROPS = {
     "C14": dict(
         level="proof",
         level_text="Verus proves on the extracted real code: div_2x1_mg10 (MG10 Thm 2), div_3x2_mg10 (Thm 3), reciprocal_2_mg10 (Alg. 6), reciprocal_ref, div_nx1_normalized, div_nx2_normalized and "
-                   "the complete un-normalised Knuth D div_nxm (estimate, multiply-subtract, add-back, forced digit, shift==0 shortcut, q_high, final shuffle) against n = q*d + r, r < d over limb values",
+                   "the complete un-normalised Knuth D div_nxm (estimate, multiply-subtract, add-back, forced digit, shift==0 shortcut, q_high, final shuffle), the un-normalised n-by-1 / n-by-2 drivers div_nx1 / div_nx2 "
+                   "(on-the-fly normalisation shift) and the `div` dispatcher (zero trimming through re-borrowed sub-slices, n = 0, n < d, 1-by-1, dispatch, lifting back to the padded slices) against n = q*d + r, r < d over limb values",
         level_note="ASSUMED: reciprocal_mg10 (table-seeded Newton iteration over Wrapping<u64>; its contract 'equals reciprocal_ref' is assumed, the lookup table is pinned by unit recip_table), "
-                   "the `div` dispatcher's trimming/dispatch logic and div_nx1/div_nx2 (un-normalised drivers with get_unchecked) are under an assumed contract in unit divd; div_nxm_normalized not covered; "
+                   "div_nxm_normalized (public, not called by div) not covered; Iterator::rposition (N14 wrapper; Kani on slices <= 8) "
                    "one fact about u64::leading_zeros (lemma_lz_facts, Kani full domain), Option::copied, slice::fill, u128::overflowing_sub specs",
         technique="deductive contracts (Verus, all slice lengths and limb values) on the division kernels",
-        units=["kernels", "div_small", "knuth", "recip_table"],
+        units=["kernels", "div_small", "knuth", "divd", "recip_table"],
         kani=dict(features=None, quick=hs("c14"), thorough=hs("c14"), bounds="leading_zeros fact: all u64 (loop-free, complete)"),
         explanation="each kernel's documented conditions of use are its requires; its ensures is the Euclidean identity in lvr() terms with the in-place layout",
         trusted=COMMON_TRUST,
-        not_decided=["body of reciprocal_mg10 beyond its lookup table", "div dispatcher trimming/dispatch", "div_nx1 / div_nx2 (un-normalised)", "div_nxm_normalized"],
+        not_decided=["body of reciprocal_mg10 beyond its lookup table", "div_nxm_normalized"],
     ),
     "C03": dict(
         level="proof",
         level_text="Verus proves div_rem, wrapping_div/rem, checked_div/rem (None iff d == 0), div_ceil, checked_next_multiple_of and next_multiple_of against the Euclidean contract over val() "
                    "for every BITS/LIMBS, modular over the contract of algorithms::div; the division kernels behind it are proved in C14's units (closure includes them)",
-        level_note="relative to the ASSUMED contract of the `div` dispatcher and of reciprocal_mg10 (see C14); operator forms / and % are assumed to forward to wrapping_div/rem (C20); "
+        level_note="the whole chain div_rem -> div -> div_nx1/nx2/nxm -> div_2x1/3x2 -> reciprocal_2 is proved; the only ASSUMED kernel body is reciprocal_mg10 (see C14); operator forms / and % are assumed to forward to wrapping_div/rem (C20); "
                    "'zero divisor panics' is a Kani should_panic obligation per width (c03p), 'non-zero divisor never panics' is the Verus no-panic obligation under d != 0",
         technique="deductive contracts (Verus, all widths) + Kani should_panic/None harnesses per width",
         units=["core", "basics", "add", "mul", "kernels", "addmul", "addmul_n", "div_small", "knuth", "divd", "divw"],
